@@ -336,6 +336,9 @@ func c14Entry(e *env) {
 		{"null", "function FindProxyForURL" + body("null"), false, true, ""},
 		{"object", "function FindProxyForURL" + body(`{a: 1}`), false, true, ""},
 		{"boolean", "function FindProxyForURL" + body("true"), false, true, ""},
+		{"symbol", "function FindProxyForURL" + body(`Symbol("PROXY evil:80")`), false, true, ""},
+		{"array-of-string", "function FindProxyForURL" + body(`["PROXY a:1"]`), false, true, ""},
+		{"string-object", "function FindProxyForURL" + body(`new String("PROXY a:1")`), false, true, ""},
 		{"non-ascii", "function FindProxyForURL" + body(`"PROXY é:1"`), false, true, ""},
 		{"throws", `function FindProxyForURL(url, host) { throw new Error("boom"); }`, false, true, ""},
 		{"empty-string", "function FindProxyForURL" + body(`""`), false, false, ""},
@@ -375,6 +378,8 @@ func c14Results(e *env) {
 	tok := map[string][3]string{ // token -> text, host, port
 		"h:1": {"proxy.example:1", "proxy.example", "1"}, "h6:1": {"[::1]:1", "::1", "1"},
 		"h": {"proxy.example", "", ""}, ":1": {":1", "", "1"}, "h:": {"proxy.example:", "proxy.example", ""},
+		"h:+1": {"proxy.example:+1", "", ""}, "h:99999": {"proxy.example:99999", "", ""}, "h:1 x": {"proxy.example:1 x", "", ""},
+		"h:1/": {"proxy.example:1/", "", ""}, "_h:1": {" proxy.example:1", "proxy.example", "1"}, "h:1?": {"proxy.example:1", "proxy.example", "1"},
 	}
 	modes := map[string]pac.Mode{"direct": pac.DIRECT, "http": pac.HTTP, "https": pac.HTTPS, "socks": pac.SOCKS, "socks4": pac.SOCKS4, "socks5": pac.SOCKS5}
 	e.eachCase(func(raw json.RawMessage) {
@@ -398,8 +403,8 @@ func c14Results(e *env) {
 			if en.Hp != "none" {
 				s += " " + tok[en.Hp][0]
 			}
-			if en.Hp == ":1" || en.Hp == "h:" {
-				lenient = true // split-able but unusable address: acceptance is left open
+			if en.Hp == "_h:1" {
+				lenient = true // a second blank: mapping to the host:port or rejection, both are fine
 			}
 			parts = append(parts, s+en.Trail)
 		}
@@ -433,6 +438,8 @@ func c14Results(e *env) {
 			}
 		}
 		switch {
+		case c.AllOk && err != nil && lenient:
+			// rejected because of the second blank: fine
 		case c.AllOk && err != nil:
 			fail("well-formed list rejected: " + err.Error())
 		case !c.AllOk && err == nil && !lenient:
@@ -448,6 +455,8 @@ func c14Results(e *env) {
 		}
 		first, ferr := ps.First()
 		switch {
+		case c.All[0].Ok && ferr != nil && c.Res[0].Hp == "_h:1":
+			// rejected because of the second blank: fine
 		case c.All[0].Ok && ferr != nil:
 			fail("First(): well-formed first entry rejected: " + ferr.Error())
 		case !c.All[0].Ok && ferr == nil:
